@@ -195,6 +195,9 @@ def spec_failures(case, line):
         bad.append('C13.illegal-listener-path')
     if 'lS' in ls[:-1]:
         bad.append('C13.shutdown-not-last')
+    # the task only ends by telling the listener Shutdown (an aborted task is killed: it tells nobody)
+    if p['done'] and 'lS' not in ls and not any(s[0] == 'A' for s in script):
+        bad.append('C13.task-ended-without-a-Shutdown-notification')
     # C13: no dial unless enabled: every 'd' directly follows 'lC'
     for a, b in zip(p['task'], p['task'][1:]):
         if b == 'd' and a[:2] != 'lC':
